@@ -8,7 +8,7 @@ HARNESS_BIN = os.path.join(vlib.CACHE, 'target-sim', 'debug', 'dcsim')
 EXTRA_HARNESS_DIRS = ['harness']
 HARNESS_BIN_BY_DOMAIN = {'rpc': vlib.HARNESS_BIN}      # the real transport (hyper over loopback TCP) through a byte proxy
 RULE = ('one case = one turmoil simulation of the real datacake-rpc client and server (feature `simulation`): 1-4 clients x 1-6 requests each (sequential and concurrently in flight, handler delays 0 / 5 / 300 / 2500 ms, '
-        'with a 2 s client timeout or none; plus long outages: 35-60 requests on one channel through a partition lasting tens of seconds) under a seeded schedule of partition / hold / release / repair events placed before connection set-up, between requests, during handler runs and before replies; '
+        'with a 2 s client timeout or none; plus 1-4 long polls answered by a later request on the same channel, no fault (runrv); plus long outages: 35-60 requests on one channel through a partition lasting tens of seconds) under a seeded schedule of partition / hold / release / repair events placed before connection set-up, between requests, during handler runs and before replies; '
         'the observed event trace (send, handler begin/end, completion with outcome and simulated time) must be a run of the Lean protocol model RpcNet (trace inclusion = the correspondence; protocol_runs_satisfy_spec: every run => Spec) and is independently checked by the Lean monitor (monitor_sound: accepted => Spec): every completion is the reply computed for that very '
         'request or a connection/timeout error, no request is executed twice, no reply without a handler run, completion within timeout + 25 ms. The five scenarios of simulation-tests/tests/rpc.rs are in the schedule list. '
         'non-trivial = at least one fault event and at least one completed request; distinct by hash')
@@ -82,6 +82,13 @@ def generate(rng, tier):
         at = rng.choice([2, 5, 10, 12, 15, 18, 20, 22, 25, 28])
         cases.append(['case %d sim' % (base + k), 'runbig %d %d %s %d' % (tau, size, rng.choice('HP'), at), 'end'])
     cases.append(['case %d sim' % (base + nb), 'runbig 2000 1000 - 0', 'end'])
+    # concurrent requests that DEPEND on each other, on one channel and a healthy network (the empty fault schedule): long polls
+    # which are answered once a later request has been handled.  Each request travels on its own HTTP/2 stream, so all of them
+    # return; a channel that carries one request at a time (D31) leaves them pending for ever, with no fault at all.
+    base = len(cases)
+    nr = dict(quick=12, thorough=400, search=40)[tier]
+    for k in range(nr):
+        cases.append(['case %d sim' % (base + k), 'runrv %d %d %d %d' % (rng.below(1 << 31), rng.choice([0, 0, 2000, 5000]), rng.range(1, 4), rng.choice([0, 5, 100, 500, 1500])), 'end'])
     base = len(cases)
     for k in range(dict(quick=8, thorough=120, search=16)[tier]):
         tau = rng.choice([300, 500, 800])
@@ -109,6 +116,7 @@ def oracle(case, impl):
 def nontrivial(case, impl):
     if case[1].startswith('proxy'): return case[1].split()[3] != 'none'
     if case[1].startswith('runbig'): return case[1].split()[3] != '-'
+    if case[1].startswith('runrv'): return sum(1 for e in ' '.join(impl).split() if e.startswith('B:')) >= 2      # at least two requests were in the handlers
     return case[1].split()[5] != '-' and any(' D:' in o for o in impl)
 
 
@@ -118,6 +126,7 @@ def stats(verdicts):
         for l, o in zip(v['case'], v['impl']):
             if l.startswith('proxy'): d['real_transport_body_faults'] = d.get('real_transport_body_faults', 0) + 1
             if l.startswith('runbig'): d['sim_body_faults'] = d.get('sim_body_faults', 0) + 1
+            if l.startswith('runrv'): d['sim_dependent_concurrent'] = d.get('sim_dependent_concurrent', 0) + 1
             if l.startswith('run ') and o.startswith('trace'):
                 d['runs'] += 1
                 ev = o.split()[3:]
